@@ -831,3 +831,38 @@ def r11_shl_trunc_width(ctx):
 
 
 RULES += [r11_shl_trunc_width]
+
+
+def r12_cached_modulus_matches_width(ctx):
+    ctx.rule("C13.r12", "wrapint caches _mod = 2^_width; the private constructor wrapint(n, width, mod) is only given the cached modulus of "
+             "an object together with the width OF THE SAME OBJECT - a result of another width (sext / zext / trunc) must have its "
+             "modulus recomputed, otherwise later arithmetic on it is done modulo the old width", floor=15)
+    WF = "lib/wrapint.cpp"
+    n = 0
+    for fn in ctx.db.fns(WF):
+        if not (fn.get("cpk") or "").endswith("wrapint") or not fn.get("body"):
+            continue
+        for c in walk(fn["body"]):
+            if not (isinstance(c, dict) and c.get("k") in ("ctor", "construct") and len(c.get("a", [])) == 3):
+                continue
+            f = c.get("f") or {}
+            if not (f.get("pk") or "").endswith("wrapint::(ctor)"):
+                continue
+            w, m = strip(c["a"][1]), strip(c["a"][2])
+            if not (isinstance(m, dict) and m.get("k") == "mem" and m.get("n") == "_mod"):
+                continue        # a freshly computed modulus
+            n += 1
+            same_obj = isinstance(w, dict) and w.get("k") == "mem" and w.get("n") == "_width" and \
+                ((w.get("b") is None and m.get("b") is None) or (w.get("b") is not None and m.get("b") is not None and
+                                                                 (same_expr(strip(w["b"]), strip(m["b"])) or (is_this(strip(w["b"])) and is_this(strip(m["b"]))))))
+            if same_obj:
+                ctx.ok("wrapint(n, _width, _mod) of one object", fn, c)
+            else:
+                ctx.bad("wrapint::%s builds a value of width `%s` with the cached modulus `%s` of another width: wrapint(100,8).sext(8) + "
+                        "wrapint(200,16) is computed modulo 2^8 and gives 44 instead of 300" % (fn["name"], src(w)[:30], src(m)[:20]), fn, c,
+                        sig="stale-modulus:%s" % fn["name"])
+    if n == 0:
+        ctx.fail("rule C13.r12: no wrapint(n, width, _mod) construction found")
+
+
+RULES += [r12_cached_modulus_matches_width]
